@@ -14,6 +14,7 @@ import (
 	"runtime/metrics"
 	"strconv"
 	"strings"
+	"syscall"
 	"time"
 	"vh/gen/ngapgen"
 
@@ -36,7 +37,7 @@ func init() {
 			"splices of two PDUs, uniformly random strings of 0..4096 octets, amplification (runs of 2..160 fragment markers / FF / BFFF / 80 octets inserted at every position and inside IE values with consistent enclosing lengths) and wide-integer saturation (length octet + value at the edges of 32- and 64-bit arithmetic at every position and behind each of the 256 first octets). distinct = hash of the input; non-trivial = input differs from the canonical encoding",
 		Assumptions: []string{
 			"allocation bound 64 MiB per call (the schema's own worst case is a few 65535-element list headers); inputs up to 4 KiB (fragmentation seeds up to 70 KiB in a separate family)",
-			"a call slower than 3 s is re-run alone; only a second slow run counts",
+			"a call that uses more than 3 s of PROCESSOR time (not wall time: load stretches that) is re-run; only a second such run counts",
 		},
 		N: func(t string) int {
 			if t == "thorough" {
@@ -61,13 +62,23 @@ func heapAllocs() uint64 {
 
 const c14AllocBound = 64 << 20
 
+// cpuTime: processor time this process has used (user + system). The slow-call monitor judges by it, not by the wall
+// clock: a loaded machine stretches wall time many times over, processor time it does not.
+func cpuTime() time.Duration {
+	var ru syscall.Rusage
+	if syscall.Getrusage(syscall.RUSAGE_SELF, &ru) != nil {
+		return 0
+	}
+	return time.Duration(ru.Utime.Nano() + ru.Stime.Nano())
+}
+
 // decodeMonitored runs ngap.Decoder under the crash, allocation and slow-call monitors.
 func decodeMonitored(o *fw.Outcome, in []byte, what string) (ok bool) {
 	fw.Beat()
 	run := func() (err error, alloc uint64, dur time.Duration, pan any, stack string) {
 		buf := append([]byte(nil), in...)
 		a0 := heapAllocs()
-		t0 := time.Now()
+		t0 := cpuTime()
 		func() {
 			defer func() {
 				if r := recover(); r != nil {
@@ -77,7 +88,7 @@ func decodeMonitored(o *fw.Outcome, in []byte, what string) (ok bool) {
 			}()
 			_, err = ngap.Decoder(buf)
 		}()
-		return err, heapAllocs() - a0, time.Since(t0), pan, stack
+		return err, heapAllocs() - a0, cpuTime() - t0, pan, stack
 	}
 	err, alloc, dur, pan, stack := run()
 	o.Count("decodes", 1)
@@ -99,7 +110,7 @@ func decodeMonitored(o *fw.Outcome, in []byte, what string) (ok bool) {
 	if dur > 3*time.Second {
 		_, _, dur2, _, _ := run()
 		if dur2 > 3*time.Second {
-			o.Fail("slow", "ngap.Decoder needed %v and %v for a %d-octet input (%s): %x", dur, dur2, len(in), what, clip(in, 400))
+			o.Fail("slow", "ngap.Decoder needed %v and %v of processor time for a %d-octet input (%s): %x", dur, dur2, len(in), what, clip(in, 400))
 			return false
 		}
 	}
